@@ -132,7 +132,7 @@ def run_case(arg):
             C = {"Base": BaseSamples, "Samples": Samples, "SMC": SMCSamples}[c["cls"]]
             if c["cls"] == "SMC":
                 kw.update(beta=0.375, log_evidence=-3.25, log_evidence_error=0.125)
-            obj = C(x, xp=xp, dtype=dt, parameters=["m1", "m2", "q"], **kw)
+            obj = C(x, xp=xp, dtype=dt, parameters=["q", "m2", "m1"], **kw)      # deliberately not in sorted order
             tag = f"samples|{c['cls']}|{c['via']}|{c['layout']}|{c['ns']}"
             try:
                 if c["via"] == "save":
